@@ -139,6 +139,10 @@ func c04Run(e *aEnv, c c04Case, waitLimit time.Duration) (res c04Result) {
 		res.key, res.msg = "no-return", "handler did not return within 30 s after the client closed"
 		return res
 	}
+	if !e.cov.Sync(20 * time.Second) {
+		res.key, res.msg = "harness", "covert listener did not accept the marker connection"
+		return res
+	}
 	if conn.TimedOutWaiting {
 		// the reply never arrived at the client within the harness limit
 		sess := e.cov.Sessions()
@@ -529,6 +533,10 @@ func c04ObfsRun(e *aEnv, c c04ObfsCase) c04Result {
 	}
 	if cr.err != nil {
 		res.key, res.msg = "not-recognised", fmt.Sprintf("obfs4 client failed: %v", cr.err)
+		return res
+	}
+	if !e.cov.Sync(20 * time.Second) {
+		res.key, res.msg = "harness", "covert listener did not accept the marker connection"
 		return res
 	}
 	sess := e.cov.Sessions()
